@@ -415,14 +415,14 @@ public:
 
         if (newSize > size())
         {
-            for (size_type i = 0; i < newSize - size(); ++i)
+            for (size_type i = size(); i < newSize; ++i)
             {
                 push_back(defaultValue.value);
             }
         }
         else
         {
-            for (size_type i = 0; i < size() - newSize; ++i)
+            for (size_type i = size(); i > newSize; --i)
             {
                 pop_back();
             }
